@@ -43,6 +43,7 @@ def cases(tier):
     out.append({"name": "non-generable", "kind": "nongen"})
     out.append({"name": "real-components", "kind": "real"})
     out.append({"name": "real-components-with-hydrogen", "kind": "realh"})
+    out.append({"name": "real-polymer-component", "kind": "realpoly"})
     return out
 
 
@@ -89,6 +90,10 @@ def _prepare(c, g, k):
     return system, S, fr, log
 
 
+POLY_TEXT = "[H]{[>][<]CC[>][<]}|gauss(60, 1)|[H].|100|"
+# target 60: two units (48.04) do not exceed it, the third (72.07) does
+
+
 def _iteration(system, pre):
     """the judged iteration over the ensemble; 'peek-then-continue': the first molecule is taken with next(), the rest with a for
     loop over the SAME object (for an iterator, iter(it) is it: nothing may start over)"""
@@ -119,7 +124,7 @@ def _bounded_generate(system, limit=8):
             count[0] += 1
             if count[0] > limit:
                 raise core.emulated(RuntimeError(f"unwinding bound: more than {limit} molecules generated"))
-            return _orig(prefix=prefix, rng=rng) if rng is not None else _orig(prefix=prefix)
+            return _orig(prefix=prefix, rng=rng, **_more) if rng is not None else _orig(prefix=prefix, **_more)
 
         mol.generate = gen
     return count
@@ -290,6 +295,38 @@ def run_case(case, g, tier, res):
             return len(out)
 
         explore_case(res, h, tier, on_path=on_path, budget_s=300)
+    elif kind == "realpoly":
+        # a polymer component generated by its real code inside the ensemble: every yielded molecule is what the component
+        # generates on its own for the same drawn target (the ensemble's state - mass still missing - has no say in it)
+        def h(c):
+            system = g.System(POLY_TEXT)
+            S = c.fresh_real("S", 1, 200)
+            mol = system._molecules[0]
+            mol.mixture._relative_mass = 100.0
+            mol.mixture._system_mass = S
+            mol.mixture._absolute_mass = S
+            from symx import gen
+            gen.install_observers(g, gen.Observer())
+            gen.DRAW_FN[0] = gen.scripted_draw([60.0] * 12)
+            alone = mol.generate(rng=SymRng()).smiles  # the component on its own, same drawn target
+            rng = SymRng()
+            System.generator.fget.__defaults__ = (rng,)
+            _bounded_generate(system)
+            info = lambda: {"S": S}
+            out = []
+            for m in system.generator:
+                out.append(m)
+                c.prove(len(out) <= 4, "unwinding bound", detail("more molecules than S / 72", info))
+            tot = 0.0
+            for j, m in enumerate(out):
+                c.prove(m.smiles == alone and m.fully_generated, "yielded molecule is the picked component's generate() result",
+                        detail("a yielded molecule is not what the component generates on its own for the same drawn target", info))
+                if j == len(out) - 1:
+                    c.prove(And(tot < S, tot + m.weight >= S), "stop exactly at the system mass", detail("iteration does not stop at the first molecule reaching the system mass", info))
+                tot += m.weight
+            return len(out)
+
+        explore_case(res, h, tier, on_path=on_path, budget_s=300)
     elif kind == "real":
         # the same loop with the components' real generate (tiny molecules): ties the stub to reality
         def h(c):
@@ -387,6 +424,33 @@ def replay(rp, gb):
             if abs(m.weight - hm) > 1e-6:
                 bad.append(f"{m.smiles} booked {m.weight}, heavy-atom mass {hm}")
             tot += hm
+        return bool(bad), f"yielded {[m.smiles for m in out]} S={S}: {bad}"
+    if kind == "realpoly":
+        from symx import gen as _gen
+
+        system = gb.System(POLY_TEXT)
+        S = vals["S"]
+        mol = system._molecules[0]
+        mol.mixture._relative_mass, mol.mixture._system_mass, mol.mixture._absolute_mass = 100.0, S, S
+        _gen.install_observers(gb, _gen.Observer())
+        _gen.DRAW_FN[0] = _gen.scripted_draw([60.0] * 12)
+        alone = mol.generate(rng=np.random.default_rng(3)).smiles
+        System.generator.fget.__defaults__ = (np.random.default_rng(3),)
+        out = []
+        for m in system.generator:
+            out.append(m)
+            if len(out) > 10:
+                break
+        bad = []
+        tot = 0.0
+        for j, m in enumerate(out):
+            if m.smiles != alone or not m.fully_generated:
+                bad.append(f"molecule {j} is {m.smiles}; alone the component generates {alone} for the same drawn target")
+            if j == len(out) - 1 and not (tot < S <= tot + m.weight):
+                bad.append(f"stop rule: before={tot} after={tot + m.weight} S={S}")
+            tot += m.weight
+        if len(out) > 4:
+            bad.append("too many molecules")
         return bool(bad), f"yielded {[m.smiles for m in out]} S={S}: {bad}"
     if kind == "real":
         import numpy as np
